@@ -24,6 +24,8 @@ ExitVals  == {0, 1, 7, 255, 256, -1}
 ReadVals  == {0, 65, 233, 255}         \* "read" programs exit with the byte they read from standard input (255 = end of input at once)
 
 Compilers == {"hexasm", "xcmp"}
+Unwritable == {"nodir", "devfull", "isdir"}
+Refused(i) == i.src # "accepted" \/ i.pre \in Unwritable        \* the run cannot end in Accept
 Invocations ==
   {[tool |-> t, src |-> s, opt |-> o, pos |-> p, pre |-> e, xv |-> 0, via |-> "const"] :
       t \in Compilers, s \in SrcClass, o \in OptSpell, p \in OptPos, e \in PreTarget}
@@ -37,6 +39,10 @@ Invocations ==
   \* pipe): nothing appears in the directory, the reader receives the binary - or nothing at all if the source is rejected
   \cup {[tool |-> t, src |-> s, opt |-> o, pos |-> "after", pre |-> "fifo", xv |-> 0, via |-> "const"] :
           t \in Compilers, s \in SrcClass, o \in OptSpell \ {"none"}}
+  \* a named output that cannot be created or written: a file in a directory that does not exist, a device that refuses every byte
+  \* (/dev/full), a directory.  The source is fine, yet no binary can be left where it was asked for: the run must end in Reject.
+  \cup {[tool |-> t, src |-> "accepted", opt |-> o, pos |-> "after", pre |-> e, xv |-> 0, via |-> "const"] :
+          t \in Compilers, o \in OptSpell \ {"none"}, e \in Unwritable}
   \* the run options of the simulators (tracing; a cycle limit far above the run's length) in both positions: the status is still the program's
   \* exit value and nothing but the expected files appears
   \cup {[tool |-> t, src |-> "accepted", opt |-> o, pos |-> p, pre |-> "absent", xv |-> x, via |-> "const"] :
@@ -61,14 +67,14 @@ vars == <<inv, phase, status, diag, created, modified, targetIsBinary>>
 
 Init == /\ inv \in {i \in Invocations : WellFormed(i)}
         /\ phase = "start" /\ status = -1 /\ diag = FALSE /\ created = {} /\ modified = {} /\ targetIsBinary = FALSE
-Accept == /\ phase = "start" /\ inv.src = "accepted"
+Accept == /\ phase = "start" /\ ~Refused(inv)
           /\ phase' = "done" /\ diag' = FALSE
           /\ status' = IF inv.tool \in {"xrun", "hexsim"} THEN Status8(ExitValue(inv)) ELSE 0
           /\ created' = IF Target(inv) # "" /\ inv.pre = "absent" THEN {Target(inv)} ELSE {}
           /\ modified' = IF Target(inv) # "" /\ inv.pre = "present" THEN {Target(inv)} ELSE {}
           /\ targetIsBinary' = (Target(inv) # "")
           /\ UNCHANGED inv
-Reject == /\ phase = "start" /\ inv.src # "accepted"
+Reject == /\ phase = "start" /\ Refused(inv)
           /\ phase' = "done" /\ diag' = TRUE
           /\ status' \in 1..255
           /\ created' = {} /\ modified' = {} /\ targetIsBinary' = FALSE
@@ -77,14 +83,14 @@ Next == Accept \/ Reject
 Spec == Init /\ [][Next]_vars
 
 \* the contract, as invariants of the state machine
-StatusTellsTheTruth == phase = "done" => ((status = 0 /\ inv.tool \in Compilers) <=> (inv.src = "accepted" /\ inv.tool \in Compilers))
+StatusTellsTheTruth == phase = "done" => ((status = 0 /\ inv.tool \in Compilers) <=> (~Refused(inv) /\ inv.tool \in Compilers))
 ErrorLeavesNothing  == (phase = "done" /\ diag) => (status # 0 /\ created = {} /\ modified = {})
 OutputWhereAsked    == (phase = "done" /\ inv.tool \in Compilers /\ status = 0) =>
                           ((inv.pre # "fifo" => created \cup modified = {Target(inv)}) /\ targetIsBinary)
 
 \* conformance of one observed run: obs = [status, stderr, created, modified, targetok]
 Conforms(i, obs) ==
-  IF i.src = "accepted"
+  IF ~Refused(i)
   THEN /\ obs.status = (IF i.tool \in {"xrun", "hexsim"} THEN Status8(ExitValue(i)) ELSE 0)
        /\ ~obs.stderr
        /\ {obs.created[k] : k \in 1..Len(obs.created)} = (IF Target(i) # "" /\ i.pre = "absent" THEN {Target(i)} ELSE {})
